@@ -843,9 +843,18 @@ func (e *Exchange) finishHandler() {
 			declared[textproto.CanonicalMIMEHeaderKey(strings.TrimSpace(k))] = true
 		}
 	}
-	for k, vs := range e.live {
+	for _, k := range sortedKeys(e.live) { // (sorted: map order must not decide anything in a simulated run)
+		vs := e.live[k]
 		if strings.HasPrefix(k, http.TrailerPrefix) {
-			addSanitized(tr, strings.TrimPrefix(k, http.TrailerPrefix), vs, e.Call.K.HTTP2)
+			name := strings.TrimPrefix(k, http.TrailerPrefix)
+			if e.Call.K.HTTP2 {
+				// net/http's HTTP/2 server promotes an undeclared trailer by
+				// assigning it to the canonical key: of two spellings of one
+				// name the later one replaces the earlier (in the real server
+				// "later" is map order; here it is the sort order)
+				delete(tr, textproto.CanonicalMIMEHeaderKey(name))
+			}
+			addSanitized(tr, name, vs, e.Call.K.HTTP2)
 		} else if declared[textproto.CanonicalMIMEHeaderKey(k)] {
 			addSanitized(tr, k, vs, e.Call.K.HTTP2)
 		}
@@ -909,7 +918,8 @@ func (e *Exchange) commitLocked(status int) {
 	e.committed = true
 	e.Status = status
 	snap := make(http.Header)
-	for k, vs := range e.live {
+	for _, k := range sortedKeys(e.live) {
+		vs := e.live[k]
 		if strings.HasPrefix(k, http.TrailerPrefix) {
 			e.snapTrailers = true
 			continue
@@ -1106,6 +1116,15 @@ func validHeaders(h http.Header) error {
 // addSanitized mirrors what net/http's servers do to response header fields:
 // invalid names are dropped; HTTP/1.1 replaces CR/LF by spaces and trims,
 // HTTP/2 drops invalid values.
+func sortedKeys(h http.Header) []string {
+	keys := make([]string, 0, len(h))
+	for k := range h {
+		keys = append(keys, k)
+	}
+	sort.Strings(keys)
+	return keys
+}
+
 func addSanitized(into http.Header, k string, vs []string, h2 bool) {
 	if !validToken(k) {
 		return
